@@ -252,7 +252,7 @@ var slowSite = map[string]string{"google": "redeem", "okta": "callback", "cognit
 func TestProp(t *testing.T) {
 	env := vh.GetEnv()
 	rep := vh.NewReport("C10", "fault_enumeration")
-	rep.Rule("per provider (google, okta, cognito) the structural answer space is ENUMERATED: token answers = 32 status codes x 3 bodies, every truncation point of the valid body, 25 body shapes, 7 access_token variants, 12 non-essential field variants, connection faults; userinfo answers (okta, cognito) likewise + e-mail(6) x email_verified(7); id_tokens (every provider; google reads the e-mail from them, for okta/cognito they sit beside a valid vouching answer and name a decoy e-mail) = segments(1..5) x base64 class(6) x email_verified(7) x e-mail(6) + segments x 9 payload shapes + 22 raw id_token values (absent, empty, null, mistyped, dots only, not-a-jwt, header-only, huge, ...); optional fields (token: token_type, expires_in, refresh_token, scope, sub; userinfo: sub, name, groups, username, ...; id_token claims) x 20 hostile shapes; then seeded random byte-level mutations of valid answers. Every case is run at two sites: provider.Redeem directly and the real authenticator /start -> /callback (e-mails, codes and tokens unique per case and site). distinct = provider|site|class|dimension values (truncation index, status, ...) or mutation target+operator sequence, counted only for cases that produced an outcome")
+	rep.Rule("per provider (google, okta, cognito) the structural answer space is ENUMERATED: token answers = 32 status codes x 3 bodies, every truncation point of the valid body, 25 body shapes, 7 access_token variants, 12 non-essential field variants, connection faults; userinfo answers (okta, cognito) likewise + e-mail(6) x email_verified(7); id_tokens (every provider; google reads the e-mail from them, for okta/cognito they sit beside a valid vouching answer and name a decoy e-mail) = segments(1..5) x base64 class(6) x email_verified(7) x e-mail(6) + segments x 9 payload shapes + 22 raw id_token values (absent, empty, null, mistyped, dots only, not-a-jwt, header-only, huge, ...); optional fields (token: token_type, expires_in, refresh_token, scope, sub; userinfo: sub, name, groups, username, ...; id_token claims) x 20 hostile shapes; decoy identities: e-mail field missing/empty/null/mistyped/unverified x an e-mail-shaped decoy in each of 13 other fields (username, preferred_username, sub, name, upn, emails[], identities[0].userId, ...) or all of them x location (token answer, id_token claims, userinfo); Email/EMAIL/eMail key spellings; then seeded random byte-level mutations of valid answers. Every case is run at two sites: provider.Redeem directly and the real authenticator /start -> /callback (e-mails, codes and tokens unique per case and site). distinct = provider|site|class|dimension values (truncation index, status, ...) or mutation target+operator sequence, counted only for cases that produced an outcome")
 	rep.Assume("the scripted identity providers (the harness's own http server; for okta /callback the sut's TLS fake IdP) answer exactly as scripted; ground truth is the label the generator attached by construction, cross-checked by an independent lenient reading of the served bytes (disagreement => inconclusive)")
 	rep.Assume("verified means the JSON boolean true; 2xx statuses other than 200, byte-order marks, key-case variants, duplicate keys, padded base64url, id_tokens with 2/4/5 segments whose second segment is a valid verified payload, google answers without access_token, hostile optional fields and (okta, cognito) odd id_tokens beside a vouching userinfo answer are don't-care zones for session/no-session - never for a crash (a session there must still carry the e-mail in the answer)")
 
@@ -508,6 +508,11 @@ func judge(rep *vh.Report, stream string, k *kase, o outcome) {
 		}
 		switch k.Label {
 		case lRefuse:
+			if k.Decoy != "" && o.email == k.Decoy {
+				rep.Violate(stream, k.Index, k.Prov+": session-for-other-email",
+					fmt.Sprintf("session for %q, an e-mail-shaped value the identity provider put in a field that does not vouch (%s), while the e-mail field itself was %s: %s", o.email, k.PClass, k.Clause, where), *k)
+				return
+			}
 			rep.Violate(stream, k.Index, k.Prov+": session-created "+k.Clause,
 				fmt.Sprintf("a session (e-mail %q) resulted from an answer the identity provider did not vouch with: %s", o.email, where), *k)
 		case lByRef:
